@@ -13,6 +13,7 @@ theorem readNextBlock_torn (cfg : Cfg) (he : cfg.shortPayloadIsEOF = true) (code
     (es : List Entry) (hcount : es.length < 2 ^ 16) (hsize : sizeSum es < 2 ^ 31 + 2 ^ 17)
     (k : Nat) (hk : k < (encodeBlock codec crc es).length) :
     readNextBlock cfg codec.toDecoder crc ((encodeBlock codec crc es).take k) = .eof := by
+  apply readNextBlock_of_core_eof
   have hu : (encodeEntries es).length < 2 ^ 31 + 2 ^ 17 := by rw [encodeEntries_length]; exact hsize
   have hc : (codec.enc (encodeEntries es)).length < 2 ^ 32 := enc_length_lt codec _ hu
   have hcrc : (crc (codec.enc (encodeEntries es))).toNat < 2 ^ 32 := UInt32.toNat_lt _
@@ -24,7 +25,7 @@ theorem readNextBlock_torn (cfg : Cfg) (he : cfg.shortPayloadIsEOF = true) (code
   have hl16 := encodeBlockHeader_length ⟨c.length, (encodeEntries es).length, es.length, (crc c).toNat, 0⟩
   simp only [List.length_append, hl16] at hk
   by_cases h16 : k < 16
-  · unfold readNextBlock
+  · unfold readNextBlockCore
     simp only [shorterThan_eq, decide_eq_true_eq]
     rw [if_pos (by simp [List.length_take, hl16]; omega)]
   · have htake : (encodeBlockHeader ⟨c.length, (encodeEntries es).length, es.length, (crc c).toNat, 0⟩ ++ c).take k
@@ -32,7 +33,7 @@ theorem readNextBlock_torn (cfg : Cfg) (he : cfg.shortPayloadIsEOF = true) (code
       rw [List.take_append, hl16]
       rw [List.take_of_length_le (by omega)]
     rw [htake]
-    unfold readNextBlock
+    unfold readNextBlockCore
     simp only [shorterThan_eq, decide_eq_true_eq]
     rw [if_neg (by simp [hl16])]
     rw [decodeBlockHeader_encode _ _ hc (by simp; omega) hcount hcrc (by simp)]
@@ -102,7 +103,8 @@ theorem oversized_csize_hides_rest (cfg : Cfg) (he : cfg.shortPayloadIsEOF = tru
     (rest : Bytes) (h16 : 16 ≤ rest.length) (hbig : (rest.drop 16).length < (decodeBlockHeader rest).csize) :
     readBlocksP cfg d crc rest = ([], none) := by
   apply readBlocksP_eof
-  unfold readNextBlock
+  apply readNextBlock_of_core_eof
+  unfold readNextBlockCore
   simp only [shorterThan_eq, decide_eq_true_eq]
   rw [if_neg (by omega)]
   by_cases hemp : (rest.drop 16).isEmpty = true
@@ -128,5 +130,68 @@ theorem load_after_oversized_csize (cfg : Cfg) (he : cfg.shortPayloadIsEOF = tru
   unfold readBlocks
   rw [readBlocksP_blocks cfg codec crc before rest hg, oversized_csize_hides_rest cfg he _ crc rest h16 hbig]
   simp
+
+/-! ### The zero-filled tail (file size reached the disk, the data did not) -/
+
+/-- **The prefix property of every clean end**, whatever rule produced it: if the reader stops
+    cleanly at `rest` behind blocks that were written, `LoadIndex` returns exactly the replay of
+    those blocks — nothing that was not written, nothing reordered. -/
+theorem load_stops_at_eof (cfg : Cfg) (codec : Codec) (crc : Checksum)
+    (h : FileHeader) (name : Bytes) (before : List (List Entry)) (rest : Bytes) (hv : h.Valid) (hn : NameOk h name)
+    (hg : ∀ b ∈ before, GoodBlock b) (hstop : readNextBlock cfg codec.toDecoder crc rest = .eof) :
+    loadIndex cfg codec.toDecoder crc (encodeFileHeader h ++ (name ++ (renderBlocks codec crc before ++ rest)))
+      = .ok (replay cfg before.flatten, if name.isEmpty then metaName before.flatten else name) := by
+  unfold loadIndex
+  rw [openReader_prefix h name _ hv hn]
+  simp only
+  rw [drop_dataStart h name _ hn]
+  unfold readBlocks
+  rw [readBlocksP_blocks cfg codec crc before rest hg, readBlocksP_eof _ _ _ _ hstop]
+  simp
+
+/-- a zero size field ends the data -/
+theorem readNextBlock_zeroSize (cfg : Cfg) (hz : cfg.zeroSizeIsEOF = true) (d : Decoder) (crc : Checksum)
+    (rest : Bytes) (h0 : (decodeBlockHeader rest).csize = 0) : readNextBlock cfg d crc rest = .eof := by
+  unfold readNextBlock
+  simp [hz, h0]
+
+theorem unle_zeros (n : Nat) : unle (List.replicate n 0) = 0 := by
+  induction n with
+  | zero => rfl
+  | succ n ih => simp [List.replicate_succ, unle, ih]
+
+/-- a tail of zero bytes of any length ends the data: shorter than a block header it is the short
+    header, otherwise its size field reads 0 -/
+theorem readNextBlock_zeros (cfg : Cfg) (hz : cfg.zeroSizeIsEOF = true) (d : Decoder) (crc : Checksum) (n : Nat) :
+    readNextBlock cfg d crc (List.replicate n 0) = .eof := by
+  apply readNextBlock_zeroSize cfg hz
+  simp only [decodeBlockHeader, List.take_replicate]
+  exact unle_zeros _
+
+/-- **load_zero_filled_tail**: blocks that were written, followed by any number of zero bytes, load
+    without error to exactly the replay of those blocks. -/
+theorem load_zero_filled_tail (cfg : Cfg) (hz : cfg.zeroSizeIsEOF = true) (codec : Codec) (crc : Checksum)
+    (h : FileHeader) (name : Bytes) (before : List (List Entry)) (n : Nat) (hv : h.Valid) (hn : NameOk h name)
+    (hg : ∀ b ∈ before, GoodBlock b) :
+    loadIndex cfg codec.toDecoder crc
+        (encodeFileHeader h ++ (name ++ (renderBlocks codec crc before ++ List.replicate n 0)))
+      = .ok (replay cfg before.flatten, if name.isEmpty then metaName before.flatten else name) :=
+  load_stops_at_eof cfg codec crc h name before _ hv hn hg (readNextBlock_zeros cfg hz codec.toDecoder crc n)
+
+/-- the zero-tail rule only ever turns an error into the end of the data: a block it applies to is
+    one the core reader refuses, so no entry of it (or behind it) is returned -/
+theorem zeroTail_only_drops (cfg : Cfg) (d : Decoder) (crc : Checksum) (rest : Bytes)
+    (hstop : readNextBlock cfg d crc rest = .eof) :
+    readNextBlockCore cfg d crc rest = .eof ∨ (∃ e, readNextBlockCore cfg d crc rest = .err e) ∨
+      (cfg.zeroSizeIsEOF = true ∧ (decodeBlockHeader rest).csize = 0) := by
+  unfold readNextBlock at hstop
+  split at hstop
+  · rename_i hc
+    simp only [Bool.and_eq_true, beq_iff_eq] at hc
+    exact Or.inr (Or.inr hc)
+  · split at hstop
+    · rename_i heq; exact Or.inl heq
+    · cases hstop
+    · rename_i e heq; exact Or.inr (Or.inl ⟨e, heq⟩)
 
 end Hv.Storage
